@@ -688,6 +688,27 @@ func (ex *Exec) mergeStates(states []*State, conds []Term, hint string) *State {
 		as[i] = s.alloc
 	}
 	n.alloc = c.define("alloc", iteChain(conds, as))
+	// ghost call counters
+	gk := map[string]bool{}
+	for _, s := range states {
+		for k := range s.ghost {
+			gk[k] = true
+		}
+	}
+	if len(gk) > 0 {
+		n.ghost = map[string]Term{}
+		for _, k := range sortedKeys(gk) {
+			vs := make([]Term, len(states))
+			for i, s := range states {
+				if t, ok := s.ghost[k]; ok {
+					vs[i] = t
+				} else {
+					vs[i] = IntLit("0")
+				}
+			}
+			n.ghost[k] = c.define("g."+k, iteChain(conds, vs))
+		}
+	}
 	return n
 }
 
@@ -742,8 +763,48 @@ func (ex *Exec) loopHead(li *loopInfo, phiIn map[*ssa.Phi]Term) {
 	if all {
 		c.heapHavocAll(st)
 	} else {
+		lw := ex.loopWriteSet(li, pre, cells, keys, all)
 		for _, k := range sortedKeys(keys) {
 			c.heapHavoc(st, k)
+			ex.assumeLoopFrame(lw, k, pre, st)
+		}
+	}
+	if len(st.ghost) > 0 || (ex.ct != nil && len(ex.ct.Asserts) > 0) {
+		hasCall := false
+		for b := range li.blocks {
+			for _, in := range b.Instrs {
+				if call, ok := in.(*ssa.Call); ok && ex.ct != nil {
+					cc := &call.Call
+					var nm string
+					switch {
+					case cc.IsInvoke():
+						nm = cc.Method.FullName()
+					case cc.StaticCallee() != nil:
+						nm = cc.StaticCallee().String()
+					default:
+						nm = exprName(cc.Value)
+					}
+					for _, a := range ex.ct.Asserts {
+						if calleeMatches(nm, a.Name) {
+							hasCall = true
+						}
+					}
+				}
+			}
+		}
+		if hasCall && ex.ct != nil {
+			if st.ghost == nil {
+				st.ghost = map[string]Term{}
+			}
+			for _, a := range ex.ct.Asserts {
+				g := c.freshConst("g.loop."+a.Name, SInt)
+				old, ok := pre.ghost[a.Name]
+				if !ok {
+					old = IntLit("0")
+				}
+				c.assume(T(SBool, "(>= %s %s)", g.S, old.S))
+				st.ghost[a.Name] = g
+			}
 		}
 	}
 	var cl []*ssa.Alloc
@@ -1258,6 +1319,19 @@ func (ex *Exec) coerce(v Val, t types.Type) Val {
 func (ex *Exec) binop(op token.Token, x, y Val, rt types.Type, p token.Pos, spec bool) Val {
 	c := ex.c
 	boolT := types.Typ[types.Bool]
+	// slice compared with the nil literal: only the backing reference matters
+	isNil := func(v Val) bool { return v.Const != nil && v.Ty != nil && v.Ty == types.Typ[types.UntypedNil] }
+	if (op == token.EQL || op == token.NEQ) && ((isNil(x) && y.T.Sort == SSl) || (isNil(y) && x.T.Sort == SSl)) {
+		s := x.T
+		if isNil(x) {
+			s = y.T
+		}
+		r := Eq(sliceArr(s), IntLit("0"))
+		if op == token.NEQ {
+			r = Not(r)
+		}
+		return Val{T: r, Ty: boolT}
+	}
 	// untyped constants adapt to the other operand
 	if x.Const != nil && y.Const == nil {
 		x = c.materialise(x, y.Ty)
@@ -1351,7 +1425,8 @@ func (ex *Exec) binop(op token.Token, x, y Val, rt types.Type, p token.Pos, spec
 					b = sliceArr(b)
 				}
 			}
-		} else if a.Sort == SSl {
+		} else if a.Sort == SSl && !spec {
+			// Go only allows comparing a slice with nil
 			a, b = sliceArr(a), sliceArr(b)
 		}
 		switch op {
